@@ -47,10 +47,10 @@ where
     self.fn_next.clear();
     self.fn_error.clear();
     self.fn_complete.clear();
-    if let Some(f) = &*self.fn_on_unsubscribe.read().unwrap() {
+    let f = self.fn_on_unsubscribe.write().unwrap().take();
+    if let Some(f) = f {
       f.call(());
     }
-    *self.fn_on_unsubscribe.write().unwrap() = None;
   }
   pub fn is_subscribed(&self) -> bool {
     self.fn_next.exists() && self.fn_error.exists() && self.fn_complete.exists()
